@@ -412,7 +412,7 @@ type pkgInliner struct {
 }
 
 // normalise returns an overlay (file name -> new content) or nil.
-func normalise(roots []*packages.Package, inv map[string]string) (map[string][]byte, *normReport) {
+func normalise(roots []*packages.Package, inv map[string]string, base map[string][]byte) (map[string][]byte, *normReport) {
 	rep := &normReport{Inlined: map[string]int{}, Refused: map[string]string{}, Into: map[string]bool{}}
 	overlay := map[string][]byte{}
 	counter := 0
@@ -434,10 +434,14 @@ func normalise(roots []*packages.Package, inv map[string]string) (map[string][]b
 		counter = in.counter
 		for f, es := range edits {
 			name := p.Fset.Position(f.Pos()).Filename
-			src, err := os.ReadFile(name)
-			if err != nil {
-				rep.Err = err.Error()
-				return nil, rep
+			src, ok := base[name]
+			if !ok {
+				var err error
+				src, err = os.ReadFile(name)
+				if err != nil {
+					rep.Err = err.Error()
+					return nil, rep
+				}
 			}
 			if imps := in.addImports[f]; len(imps) > 0 {
 				var names []string
